@@ -31,8 +31,20 @@ RULE = ("cases = ordered pairs of valid DFAs over one alphabet (and single DFAs 
         "mutable-automata option with plain set/dict containers, queries first, then all comparisons judged on the "
         "definition as built; every cached query (isempty / isfinite / maximum_word_length) is called a second time on the same object "
         "and once more after another operation; probe family: the same queries called on a temporary (an object no "
-        "variable refers to) — open finding C06:cached-query-on-temporary")
+        "variable refers to) — open finding C06:cached-query-on-temporary; round 4: anchor streams = ONE long-lived DFA "
+        "against a stream of 30–60 temporaries that are built, compared and dropped (all nine comparisons, the long-lived "
+        "object on the left and on the right; temporaries = random DFAs, variants of the anchor, empty / universal "
+        "language; replay = the whole stream); histories = 2–4 rounds of (1–3 queries of the OTHER query families — "
+        "count_words_of_length / words_of_length / iteration prefix / successor(s) / predecessor(s) / minimum / "
+        "maximum_word_length / cardinality / len / random_word / clear_cache, lengths around n and 2n — then isempty / "
+        "isfinite / the nine comparisons) on the same two objects, plus every DFA with ≤2 states over {a,b} and every "
+        "unary DFA with ≤3 states × one counting / sampling / enumeration query of length k ≤ 2n+1 before isempty / "
+        "isfinite (every 4th combination in the quick tier); every C06 answer judged on the definition, failing "
+        "histories minimised into concrete replays")
 ASSUMPTIONS = ["operands are valid DFAs over the same alphabet (different alphabets are outside the property)",
+               "histories: the queries asked between the C06 queries are read-only queries of the public DFA API with "
+               "arguments in their own domains (lengths ≥ 0, start strings over the alphabet, forward successor search with a "
+               "max_length); their answers are not judged here (C13 / C14 own them) — only what they leave behind matters",
                "input symbols are single characters (a multi-character symbol validates, but Python strings are read "
                "character by character, so the graph-based isempty/isfinite and the string language then talk about "
                "different things — documented domain restriction, reviewer item X3)",
